@@ -182,6 +182,7 @@ void VRun::exec(const VOpRec &o) {
             else if (m.text == U("?")) { want = CIF_OK; after = MValue::unk(); }
             else if (m.text == U(".")) { want = CIF_OK; after = MValue::na(); }
             else if (bare_ok(m.text)) { want = CIF_OK; after.quoted = false; }
+            else if (is_reserved_word(m.text)) want = CIF_ARGUMENT_ERROR;      // data_* save_* loop_ stop_ global_ in any letter case can never be presented unquoted
             else { bool ws = false; for (char16_t c : m.text) if (c == ' ' || c == '\t' || c == '\n' || c == '\r') ws = true; if (ws) want = CIF_ARGUMENT_ERROR; else return; }
             int rc = tr ? cif_value_try_quoted(t.v, (cif_quoted_tp) q) : cif_value_set_quoted(t.v, (cif_quoted_tp) q);
             cover(o.k, rc, (uint64_t) m.kind * 4 + (uint64_t) q * 2 + (tr ? 1 : 0));
